@@ -437,13 +437,10 @@ impl CommandBuilder<'_> {
         if let Some(replace_str) = &self.options.replace {
             // Replace all occurrences in initial args with the extra arg,
             // Thanks to `MaxArgsCommandSizeLimiter`, we only process a single extra arg here.
-            let replacement = self.extra_args[0].to_string_lossy();
+            let replacement = &self.extra_args[0];
             let initial_args: Vec<OsString> = initial_args
                 .iter()
-                .map(|arg| {
-                    let arg_str = arg.to_string_lossy();
-                    OsString::from(arg_str.replace(replace_str, &replacement))
-                })
+                .map(|arg| replace_in_argument(arg, replace_str, replacement))
                 .collect();
 
             command
@@ -515,6 +512,42 @@ impl CommandBuilder<'_> {
 
 trait ArgumentReader {
     fn next(&mut self) -> io::Result<Option<Argument>>;
+}
+
+/// Replaces every occurrence of `pattern` in `arg` by `replacement`, working on
+/// the bytes so that input that is not valid UTF-8 is passed on unchanged.
+#[cfg(unix)]
+fn replace_in_argument(arg: &OsStr, pattern: &str, replacement: &OsStr) -> OsString {
+    use std::os::unix::ffi::{OsStrExt, OsStringExt};
+    let (arg, pattern, replacement) = (arg.as_bytes(), pattern.as_bytes(), replacement.as_bytes());
+    if pattern.is_empty() {
+        // Keep what `str::replace` does with an empty pattern.
+        let (arg, replacement) = (OsStr::from_bytes(arg), OsStr::from_bytes(replacement));
+        return OsString::from(
+            arg.to_string_lossy()
+                .replace("", &replacement.to_string_lossy()),
+        );
+    }
+    let mut result = Vec::with_capacity(arg.len());
+    let mut i = 0;
+    while i < arg.len() {
+        if arg[i..].starts_with(pattern) {
+            result.extend_from_slice(replacement);
+            i += pattern.len();
+        } else {
+            result.push(arg[i]);
+            i += 1;
+        }
+    }
+    OsString::from_vec(result)
+}
+
+#[cfg(not(unix))]
+fn replace_in_argument(arg: &OsStr, pattern: &str, replacement: &OsStr) -> OsString {
+    OsString::from(
+        arg.to_string_lossy()
+            .replace(pattern, &replacement.to_string_lossy()),
+    )
 }
 
 /// Turns the bytes of one argument into an `OsString` without altering them:
